@@ -285,7 +285,8 @@ func init() {
 				if err != nil {
 					return "err"
 				}
-				return "ok " + hx(b) + " " + strings.Join(post, " ")
+				toks := strings.Join(post, " ")
+				return "ok " + hxOwn(b) + " " + toks
 			}},
 			OpDef{Name: "c06." + wt.name + ".dec", Impl: func(a []string) string {
 				f, n, err := wt.dec(clip(unhx(a[0])))
@@ -300,11 +301,13 @@ func init() {
 					return "err"
 				}
 				in := clip(append(append([]byte{}, b...), unhx(a[wt.nargs])...))
+				lb := len(b)
+				hxOwn(b) // the encoding now belongs to the caller (held and watched, or written over)
 				f, n, err := wt.dec(in)
 				if err != nil {
 					return "err"
 				}
-				return "ok " + strings.Join(f, " ") + " " + strconv.Itoa(n) + " " + strconv.Itoa(len(b))
+				return "ok " + strings.Join(f, " ") + " " + strconv.Itoa(n) + " " + strconv.Itoa(lb)
 			}})
 	}
 	ops = append(ops, OpDef{Name: "c06.date.word", Impl: func(a []string) string {
